@@ -37,10 +37,17 @@ def scn_retry(ctx):
     sleep = ctx.real("sleep", lo=0, lo_strict=True)
     expo = ctx.real("exponent", lo=1 if p.get("exp_ge1", True) else 0, lo_strict=not p.get("exp_ge1", True))
     maxs = ctx.real("max_sleep", lo=0, lo_strict=True)
+    if p.get("huge_sleep"):
+        # a back-off that means "practically never": beyond what a timed wait accepts (threading.TIMEOUT_MAX ~ 9.2e9 s)
+        from fractions import Fraction
+        sleep = SReal(Fraction(10 ** 10))
+        maxs = SReal(Fraction(10 ** 10))
+        expo = SReal(Fraction(1))
     ctx.assume(sleep >= 128 * eps)
     ctx.assume(maxs >= 128 * eps)
-    ctx.assume(sleep <= 1000)
-    ctx.assume(maxs <= 1000)
+    if not p.get("huge_sleep"):
+        ctx.assume(sleep <= 1000)
+        ctx.assume(maxs <= 1000)
     ctx.assume(expo <= 8)
     if not p.get("exp_ge1", True):
         ctx.assume(sleep * expo >= 128 * eps)
@@ -189,7 +196,39 @@ def scn_retry(ctx):
     return True
 
 
-MUST_REACH = {"*": ["retried"]}
+def scn_policy(ctx):
+    """ExceptionRetryPolicy by itself, at attempt numbers far beyond what a scheduled program can reach:
+    should_retry follows max_attempts / exception_base, sleep_time is min(sleep*exponent^(k-1), max_sleep)."""
+    from concurrent.futures import Future
+    from fractions import Fraction
+    from more_executors.retry import ExceptionRetryPolicy
+    attempts = [1, 2, 3, 64, 1023, 1024, 1025, 1026, 1499, 1500]
+    k = attempts[ctx.choice(len(attempts), "attempt")]
+    expo = [Fraction(2), Fraction(3, 2), Fraction(10), Fraction(1), Fraction(1, 2)][ctx.choice(5, "exponent")]
+    pol = ExceptionRetryPolicy(max_attempts=1500, sleep=1.0, exponent=float(expo), max_sleep=120.0)
+    f = Future()
+    f.set_exception(Retryable("again"))
+    try:
+        sr = pol.should_retry(k, f)
+    except Exception as e:  # noqa
+        ctx.check("policy-raises-nothing", False, "should_retry(%d) raised %r" % (k, e))
+        return True
+    ctx.check("should-retry-until-max-attempts", sr == (k < 1500), "should_retry(%d) = %r with max_attempts=1500" % (k, sr))
+    try:
+        st = pol.sleep_time(k, f)
+    except Exception as e:  # noqa
+        ctx.check("policy-raises-nothing", False, "sleep_time(attempt=%d) with exponent %s raised %r (the library then stops retrying)" % (k, expo, e))
+        return True
+    exact = min(Fraction(1) * expo ** (k - 1), Fraction(120))
+    ok = abs(Fraction(st) - exact) <= max(exact, Fraction(1, 10 ** 300)) * Fraction(1, 10 ** 9) if exact > 0 else st == 0
+    if exact < Fraction(1, 10 ** 300):
+        ok = 0 <= st < 1e-290  # underflow towards zero is the float semantics of the documented formula
+    ctx.check("delay-formula", ok, "sleep_time(%d) = %r, min(sleep*exponent^(k-1), max_sleep) = %s" % (k, st, float(exact)))
+    ctx.reach("policy-kernel")
+    return True
+
+
+MUST_REACH = {"*": ["retried", "policy-kernel"]}
 
 ASSUMPTIONS = [
     "policy parameters: sleep, max_sleep in [128*eps, 1000], exponent in [1, 8], and in one program (0, 8] with sleep*exponent >= 128*eps; max_attempts in {1,2,3,4}; exception_base as a class, a list, a tuple / list of two classes",
@@ -203,7 +242,7 @@ BOUNDS_TEXT = {
 
 
 def plan(tier, seed):
-    items = []
+    items = [dict(scenario="policy", params=dict(), bounds=dict(P=0))]
     if tier == "quick":
         items.append(dict(scenario="retry", params=dict(nsub=1, max_attempts=3, base="pool"), bounds=dict(P=1)))
         items.append(dict(scenario="retry", params=dict(nsub=1, max_attempts=2, base="sync", base_list=False), bounds=dict(P=1)))
@@ -213,6 +252,7 @@ def plan(tier, seed):
         items.append(dict(scenario="retry", params=dict(nsub=1, max_attempts=2, base="pool", slow_callable=True), bounds=dict(P=0)))
         items.append(dict(scenario="retry", params=dict(nsub=1, max_attempts=3, base="sync", policy="raises", raise_in="sleep_time", raise_at=1), bounds=dict(P=0)))
         items.append(dict(scenario="retry", params=dict(nsub=1, max_attempts=1, base="pool"), bounds=dict(P=1)))
+        items.append(dict(scenario="retry", params=dict(nsub=1, max_attempts=2, base="sync", huge_sleep=True), bounds=dict(P=0)))
         items.append(dict(scenario="retry", params=dict(nsub=1, max_attempts=4, base="sync", base_form="tuple2"), bounds=dict(P=0)))
         items.append(dict(scenario="retry", params=dict(nsub=1, max_attempts=2, base="sync", base_form="list2"), bounds=dict(P=0)))
     else:
